@@ -483,6 +483,10 @@ def classify(case, impl, fail):
     if not m:
         return None
     k, name = int(m.group(1)), m.group(2)
+    # a namespace-reading validator filled the cache while a failing add_parameter had its Parameter installed
+    if case['kind'] == 'Nosy' and any(st['op'] == 'addParam' and st['n'] == name and o['res'] == 'RuntimeError'
+                                      for st, o in zip(case['steps'][:k + 1], impl['steps'][:k + 1])):
+        return 'failed-add-parameter-cache-filled-by-validator'
     # a Parameter object assigned at class level under that name, at or before the failing step
     if any(st['op'] == 'clsSetParam' and st['n'] == name for st in case['steps'][:k + 1]):
         return 'parameter-valued-class-assignment-clears-no-cache'
